@@ -110,6 +110,38 @@ def run(ctx):
         # corrupt input makes json.loads raise more than ValueError (RecursionError on deep nesting, ...)
         broad = h.type is None or txt(h.type) in ('Exception', 'BaseException')
         ok = ok and reraises and guarded and broad
+    # polarity, per handler: the statements that re-raise are reached only with ignore_errors false, and a path that swallows
+    # the error (falls out of the handler / continues) only with ignore_errors true
+    from rules.common import guard_atoms
+    for h in handlers:
+        for x in ast.walk(h):
+            if isinstance(x, ast.Raise):
+                ga = guard_atoms(nx, x, 'self')
+                # every way to reach the raise has ignore_errors established false
+                pol = bool(ga) and all(any(a == 'X.ignore_errors' and tr is False for a, tr in conj) for conj in ga)
+                ok = ok and pol
+        swallow = [st for st in ast.walk(h) if isinstance(st, (ast.Continue, ast.Pass)) or
+                   (isinstance(st, ast.Return) and st.value is None)]
+        for x in swallow:
+            ga = guard_atoms(nx, x, 'self')
+            inside_if = any(conj for conj in ga)
+            if inside_if:
+                ok = ok and all(any(a == 'X.ignore_errors' and tr is True for a, tr in conj) for conj in ga if conj)
     ctx.ob('T14.jsonl', nx.fq, 'undecodable lines are skipped only when ignore_errors is set (otherwise re-raised)', ok, loc=nx.loc)
+    # iter_splitlines: the text after the last line break is yielded too (an open-ended slice of the text, after the scan loop)
+    tails = [n for n in ast.walk(isl.node) if isinstance(n, (ast.Yield,)) and n.value is not None]
+    loops_ = [n for n in ast.walk(isl.node) if isinstance(n, ast.For)]
+    after = [y for y in tails if loops_ and y.lineno > loops_[0].end_lineno]
+
+    def open_tail(e):
+        if isinstance(e, ast.Subscript) and isinstance(e.slice, ast.Slice) and e.slice.upper is None and e.slice.lower is not None:
+            return txt(e.value) == isl.params[0]
+        if isinstance(e, ast.Name):
+            defs = [a.value for a in ast.walk(isl.node) if isinstance(a, ast.Assign) and len(a.targets) == 1 and txt(a.targets[0]) == e.id]
+            return len(defs) == 1 and open_tail(defs[0])
+        return False
+    ctx.ob('T10.tail', isl.fq, 'the text after the last line break is yielded as well (a yield of text[<end of last break>:] after the '
+           'scan loop)', any(open_tail(y.value) for y in after), loc=isl.loc,
+           detail='yields after the loop: %s' % [txt(y.value) for y in after])
     for r, n in (('T12.req', 8), ('T12.only', 8), ('T12.order', 8), ('T17', 1), ('T9.blank', 1)):
         ctx.need(r, n)
